@@ -2,6 +2,7 @@
 import Rbgp.Term
 import Rbgp.Wire.Stream
 import Rbgp.Wire.Nlri3
+import Rbgp.Wire.Sess
 import Rbgp.Wire.Spec
 namespace Rbgp.Wire.Codec
 open Rbgp Rbgp.Term Rbgp.Wire
@@ -14,6 +15,7 @@ inductive Case where
   | rtr (chunks : List Bytes)
   | bfd (b : Bytes)
   | xattr (kind : String) (b : Bytes)
+  | sess (c : Codec) (est : Bool) (chunks : List Bytes) (eof : Bool)
   deriving Repr
 
 def profileOf? : String → Option Profile
@@ -58,6 +60,44 @@ def chunksOf? : Term → Option (List Bytes)
   | .list (.atom "chunks" :: cs) => cs.mapM bytesOf?
   | _ => none
 
+/-! ### session cases (conventions of harness/common/c03_sess.rs) -/
+
+def sessFamily (afi safi : Nat) : Bool :=
+  ((afi == 1 || afi == 2) && (safi == 1 || safi == 2 || safi == 4 || safi == 128)) || (afi == 25 && safi == 70)
+
+def be16B (n : Nat) : Bytes := [n / 256 % 256, n % 256]
+
+/-- the optional parameters of the OPEN that negotiates codec `c` -/
+def canonParams (c : Codec) : Bytes :=
+  let mp : Bytes := c.fams.flatMap fun (k, _) => [1, 4] ++ be16B (k / 65536) ++ [0, k % 65536 % 256]
+  let as4 : Bytes := if c.two then [] else [65, 4, 0, 0, 64888 / 256, 64888 % 256]
+  let apf := c.fams.filter (·.2)
+  let ap : Bytes := if apf.isEmpty then [] else
+    [69, apf.length * 4 % 256] ++ apf.flatMap fun (k, _) => be16B (k / 65536) ++ [k % 65536 % 256, 2]
+  let ext : Bytes := if c.ext then [6, 0] else []
+  let caps := mp ++ as4 ++ ap ++ ext
+  [(caps.length + 2) % 256, 2, caps.length % 256] ++ caps
+
+def preAdmissible (c : Codec) (all : Bytes) : Bool :=
+  if all.length < 19 || all[18]? != some 1 then true
+  else
+    let l := all[16]?.getD 0 * 256 + all[17]?.getD 0
+    if l < 19 || l > 4096 || l > all.length || l < 29 then true
+    else (all.drop 28).take (l - 28) == canonParams c
+
+def sessCaseOf? (c ph ch e : Term) : Option Case := do
+  let (codec, _) ← codecOf? c
+  let est ← match ph with
+    | .atom "est" => some true
+    | .atom "pre" => some false
+    | _ => none
+  let chunks ← chunksOf? ch
+  let eof ← asBool? e
+  let famOk := codec.fams.all fun (k, _) => sessFamily (k / 65536) (k % 65536)
+  if famOk && !codec.fams.isEmpty && codec.fams.length ≤ 8 && chunks.length ≤ 40
+      && (est || preAdmissible codec chunks.flatten)
+  then some (.sess codec est chunks eof) else none
+
 def caseOf? : Term → Option Case
   | .list [.atom "bgp", c, ch] => do
       let (codec, allModelled) ← codecOf? c
@@ -69,6 +109,7 @@ def caseOf? : Term → Option Case
       some (.xbgp codec chunks)
   | .list [.atom "rtr", ch] => (chunksOf? ch).map .rtr
   | .list [.atom "bfd", b] => (bytesOf? b).map .bfd
+  | .list [.atom "sess", c, ph, ch, e] => sessCaseOf? c ph ch e
   | .list [.atom "xattr", .atom k, b] =>
       if k == "tunnel" || k == "psid" || k == "ls" then (bytesOf? b).map (.xattr k) else none
   | _ => none
@@ -153,11 +194,44 @@ def bfdT : Out (Except BfdErr BfdMsg) → Term
         | .io => sym "io"]
   | _ => list [sym "panic"]
 
+def sstateT : Sess.SState → Term
+  | .opensent => sym "opensent"
+  | .openconfirm => sym "openconfirm"
+  | .established => sym "established"
+
+def sobsT (o : Sess.SObs) : Term :=
+  let st := match o.status with
+    | .up s => tag "up" [sstateT s]
+    | .closed => list [sym "closed"]
+    | .panic => list [sym "panic"]
+    | .wedge => list [sym "wedge"]
+    | .storm => list [sym "storm"]
+  tag "sess-obs" ([st, tag "notifs" (o.notifs.map fun (a, b) => list [nat a, nat b])] ++
+    (if o.capExceeded then [sym "cap-exceeded"] else []))
+
+def sobsOf? : Term → Option Sess.SObs
+  | .list (.atom "sess-obs" :: st :: .list (.atom "notifs" :: ns) :: rest) => do
+      let status ← match st with
+        | .list [.atom "up", .atom "opensent"] => some (Sess.Status.up .opensent)
+        | .list [.atom "up", .atom "openconfirm"] => some (Sess.Status.up .openconfirm)
+        | .list [.atom "up", .atom "established"] => some (Sess.Status.up .established)
+        | .list [.atom "closed"] => some .closed
+        | .list [.atom "panic"] => some .panic
+        | .list [.atom "wedge"] => some .wedge
+        | .list [.atom "storm"] => some .storm
+        | _ => none
+      let notifs ← ns.mapM fun n => match n with
+        | .list [a, b] => do pure ((← asNat? a), (← asNat? b))
+        | _ => none
+      pure ⟨status, notifs, rest == [.atom "cap-exceeded"]⟩
+  | _ => none
+
 /-- the model's observation of a case -/
 def runCase (p : Profile) : Case → Term
   | .bgp c chunks => tag "obs" ((bgpStream (decP3 p noHypDec) p c [] chunks).map recT)
   | .xbgp _ _ => list [sym "hyp"]
   | .xattr _ _ => list [sym "hyp"]
+  | .sess c est chunks eof => sobsT (Sess.runSess (decP3 p noHypDec) p c est chunks eof)
   | .rtr chunks => tag "obs" ((rtrStream [] chunks).map rrecT)
   | .bfd b => tag "obs" [bfdT (bfdDecode b)]
 
@@ -197,6 +271,10 @@ def oracle (c : Case) (obs : Term) : String :=
       match rs.mapM srecOf? with
       | some recs => verdictStr (Spec.checkBgpCase codec.maxLen chunks recs)
       | none => "fail idx=0 clause=unparsable-observation"
+  | .sess _ _ _ eof, o =>
+      match sobsOf? o with
+      | some so => verdictStr (Sess.checkSess eof so)
+      | none => "fail idx=0 clause=unparsable-observation"
   | .xattr _ _, .list [.atom "obs", .list [.atom "done"]] => verdictStr (Spec.checkAttrBody .done)
   | .xattr _ _, .list [.atom "obs", .list [.atom "panic"]] => verdictStr (Spec.checkAttrBody .panic)
   | .xattr _ _, .list [.atom "obs", .list [.atom "stall"]] => verdictStr (Spec.checkAttrBody .stall)
@@ -206,6 +284,7 @@ def oracle (c : Case) (obs : Term) : String :=
 def stats (c : Case) (obs : Term) : String :=
   let kind := match c with
     | .bgp _ _ => "bgp" | .xbgp _ _ => "xbgp" | .rtr _ => "rtr" | .bfd _ => "bfd" | .xattr k _ => s!"xattr-{k}"
+    | .sess _ est _ eof => s!"sess-{if est then "est" else "pre"}{if eof then "-eof" else ""}"
   let errs := match obs with
     | .list (.atom "obs" :: rs) =>
         rs.filterMap fun (r : Term) => match r with
@@ -215,6 +294,13 @@ def stats (c : Case) (obs : Term) : String :=
           | .list (.atom "pdu" :: _) => some s!"pdu:{kind}=1"
           | _ => none
     | _ => []
-  " ".intercalate (s!"judged:{kind}=1" :: errs.eraseDups)
+  let sess := match c, sobsOf? obs with
+    | .sess _ _ _ _, some so =>
+        [match so.status with
+          | .up st => s!"sess-outcome:up-{match st with | .opensent => "opensent" | .openconfirm => "openconfirm" | .established => "established"}=1"
+          | .closed => if so.notifs.isEmpty then "sess-outcome:closed-silently=1" else s!"sess-outcome:closed-notif-{(so.notifs.headD (0,0)).1}=1"
+          | _ => "sess-outcome:bad=1"]
+    | _, _ => []
+  " ".intercalate (s!"judged:{kind}=1" :: errs.eraseDups ++ sess)
 
 end Rbgp.Wire.Codec
